@@ -53,6 +53,12 @@ RealContents ==
   \cup { <<128 + 1, e1, e2, 1, 1>> : e1 \in {0, 255, 3}, e2 \in {0, 200} }                                   \* 2-octet exponent
   \cup { <<128 + 2, 0, 0, 5, 9>>, <<128 + 2, 255, 255, 251, 9>> }                                            \* 3-octet exponent
   \cup { <<128 + 3, 1, 4, 7>>, <<128 + 3, 2, 0, 4, 7>>, <<128 + 3, 0, 7>>, <<128 + 3>> }                     \* explicit exponent length
+  \* every exponent format x exponent sign x sign x base, small mantissa (the exponent field is where formats differ)
+  \cup { <<128 + 64 * s + 16 * b + 0>> \o e \o <<5>> : s \in {0, 1}, b \in {0, 1, 2}, e \in {<<3>>, <<253>>} }
+  \cup { <<128 + 64 * s + 16 * b + 1>> \o e \o <<5>> : s \in {0, 1}, b \in {0, 1, 2}, e \in {<<0, 3>>, <<255, 253>>, <<1, 0>>, <<254, 0>>} }
+  \cup { <<128 + 64 * s + 16 * b + 2>> \o e \o <<5>> : s \in {0, 1}, b \in {0, 1, 2}, e \in {<<0, 0, 3>>, <<255, 255, 253>>} }
+  \cup { <<128 + 64 * s + 16 * b + 3, Len(e)>> \o e \o <<5>> : s \in {0, 1}, b \in {0, 1, 2},
+              e \in {<<3>>, <<253>>, <<0, 3>>, <<255, 253>>, <<0, 0, 0, 3>>, <<255, 255, 255, 253>>, <<254, 12>>} }
   \cup { <<128, 0, 1, 255, 255, 255, 255, 255, 255, 255>>, <<128, 52, 31, 255, 255, 255, 255, 255, 255>>,     \* >53-bit mantissa, 2^52 scale
          <<128 + 48, 0, 1>>, <<128, 0>>, <<128>> }                                                           \* reserved base, no mantissa
 RealTLVs == TLVs(9, RealContents)
